@@ -1261,12 +1261,12 @@ impl World {
                     None => skip(self, "no subscribe response"),
                 }
             }
-            Step::IdHistory { seed, ops, clones, max_outstanding } => {
+            Step::IdHistory { seed, ops, clones, max_outstanding, pin } => {
                 if self.phase() != Phase::Running || !self.is_live(TaskRef::Ctx) {
                     skip(self, "client is not serving");
                     return;
                 }
-                self.id_history(*seed, *ops, *clones, *max_outstanding);
+                self.id_history(*seed, *ops, *clones, *max_outstanding, *pin);
             }
             Step::SetNextIds { packet_id, sub_id } => match self.handles.iter().flatten().next() {
                 Some(h) => {
@@ -1419,7 +1419,8 @@ impl World {
         }
     }
 
-    fn id_history(&mut self, seed: u64, ops: u32, clones: usize, max_outstanding: usize) {
+    fn id_history(&mut self, seed: u64, ops: u32, clones: usize, max_outstanding: usize, pin: bool) {
+        let mut pinned: Option<u16> = None;
         use std::collections::BTreeMap as Map;
         let mut rng = Rng::new(seed ^ 0x1d1d_1d1d);
         let mut kept: Vec<Ev> = Vec::new();
@@ -1488,21 +1489,29 @@ impl World {
                     self.shared.push(Ev::IdViolation { class: "C11/zero-id".into(), what: format!("packet identifier 0 (operation #{n})") });
                     violated = true;
                 }
-                if let Some(prev) = outstanding.get(&pid).filter(|prev| n - prev.3 < 65_000) {
-                    // (an operation left outstanding for >= 65000 allocations would be the
-                    // generator breaking the property's own proviso, not the library)
+                if let Some(prev) = outstanding.get(&pid).filter(|prev| n - prev.3 < 65_535) {
+                    // (an operation left outstanding while 65535 or more identifiers are
+                    // allocated is outside the property's proviso)
                     self.shared.push(Ev::IdViolation { class: "C11/duplicate-id/single-task".into(), what: format!("packet identifier {pid} allocated to operation #{n} while operation {} still holds it", prev.0) });
                     violated = true;
                 }
                 let m = marker_of(&w.pkt).unwrap_or(usize::MAX);
                 outstanding.insert(pid, (m, k, 0, n));
-                order.push_back(pid);
+                if pin && pinned.is_none() {
+                    pinned = Some(pid); // never acknowledged
+                } else if pinned == Some(pid) {
+                    pinned = None; // the cycle came round (outside the proviso): from now on an ordinary entry
+                    order.push_back(pid);
+                } else {
+                    order.push_back(pid);
+                }
             }
             max_seen = max_seen.max(outstanding.len());
             // acknowledge: keep at most `max_outstanding` in flight, in random order
-            let mut budget = if outstanding.len() > max_outstanding { outstanding.len() - max_outstanding } else { rng.usize_below(2) };
+            let in_play = outstanding.len() - usize::from(pinned.is_some());
+            let mut budget = if in_play > max_outstanding { in_play - max_outstanding } else { rng.usize_below(2) };
             let mut guard = 0;
-            while budget > 0 && !outstanding.is_empty() && guard < 10_000 {
+            while budget > 0 && !order.is_empty() && guard < 10_000 {
                 guard += 1;
                 let idx = if rng.coin() { 0 } else { rng.usize_below(order.len()) };
                 let pid = order[idx];
